@@ -1,7 +1,7 @@
 (* C19 model runner: one case per line on stdin, one result per line on stdout.
    M <hex>      validateMediaType
    T <hex>      time.Parse(time.RFC3339, _) succeeds
-   K <fn> <exists> <bydigest> <failat|-> <at> <subject> <layers> <ann> <config> <config_ann> <store>
+   K <fn> <exists> <key 0=full 1=digest 2=namespace> <failat|-> <at> <subject> <layers> <ann> <config> <config_ann> <store>
    Descriptors  D:<mt>:<dg>:<size>:<ann>:<at>:<extra>   (hex fields, "-" = empty)
    Annotations  -  |  k=v;k=v
    Option       N | <desc>          List  N | L,<desc>,<desc>...
@@ -95,7 +95,8 @@ let () =
     | [id; "M"; h] -> Printf.printf "%s %s\n" id (if valid_media_type (str_of_hex h) then "1" else "0")
     | [id; "T"; h] -> Printf.printf "%s %s\n" id (if rfc3339_ok (str_of_hex h) then "1" else "0")
     | [id; "K"; f; ex; bd; fa; at; subj; layers; ann; cfg; cann; store; _spec] ->
-      let tc = { t_exists = (ex = "1"); t_bydigest = (bd = "1") } in
+      let tc = { t_exists = (ex = "1");
+                 t_key = (match bd with "0" -> KFull | "1" -> KDigest | "2" -> KNamespace | _ -> failwith "key") } in
       let fa = if fa = "-" then None else Some (nat_of_int (int_of_string fa)) in
       let o = { o_subject = odesc_of subj; o_layers = list_of layers; o_ann = ann_of ann;
                 o_config = odesc_of cfg; o_config_ann = ann_of cann } in
